@@ -68,6 +68,14 @@ theorem forced_flush_zero (s : State) (hst : s.strategy ≠ .none) (hw : WHeld s
 
 /-! ### sizes never grow in a flush -/
 
+/-- the `finally` clause of the shared-memory flush never grows the size -/
+theorem fin_le (m force : Bool) (s' : State) (r : Nat) (e' : Entry) :
+    (if (!force) = true then (if m = true then { s' with size := s'.size - 1 } else s').delEntry r
+      else (if m = true then { s' with size := s'.size - 1 } else s').setEntry r { e' with modified := false }).size ≤ s'.size ∧
+    (if (!force) = true then (if m = true then { s' with size := s'.size - 1 } else s').delEntry r
+      else (if m = true then { s' with size := s'.size - 1 } else s').setEntry r { e' with modified := false }).capacity = s'.capacity := by
+  cases m <;> cases force <;> simp [State.delEntry, State.setEntry]
+
 theorem size_le_flushOne (s : State) (oi : Nat) (force : Bool) :
     (flushOne s oi force).1.size ≤ s.size ∧ (flushOne s oi force).1.capacity = s.capacity := by
   unfold flushOne
@@ -94,7 +102,12 @@ theorem size_le_flushOne (s : State) (oi : Nat) (force : Bool) :
                 rw [hm] at this
                 cases err with
                 | some er => exact ⟨by show s1.size - _ ≤ _; rw [this.1]; exact Nat.sub_le _ _, this.2⟩
-                | none => exact ⟨by show s1.size - _ ≤ _; rw [this.1]; exact Nat.sub_le _ _, this.2⟩
+                | none =>
+                  simp only
+                  have ht := sameBook_trySave s1 o
+                  have hc := sameCap_trySave s1 o
+                  exact ⟨by show (trySave s1 o).1.size - _ ≤ _; rw [ht.2.1, this.1]; exact Nat.sub_le _ _,
+                    hc.1.trans this.2⟩
           · exact ⟨Nat.sub_le _ _, rfl⟩
       · exact ⟨Nat.le_refl _, rfl⟩
     · unfold flushMem
@@ -106,8 +119,16 @@ theorem size_le_flushOne (s : State) (oi : Nat) (force : Bool) :
             · exact ⟨Nat.le_of_eq (hmi _).1, (hmi _).2⟩
           · exact ⟨Nat.le_refl _, rfl⟩
         · rename_i e _
-          cases hm : e.modified <;> cases force <;> simp [hm, State.delEntry, State.setEntry, saveToResource,
-            State.writeFile, State.setObj] <;> split <;> simp <;> omega
+          have ht := sameBook_trySave (s.setObj oi { o with cell := e.cell }) { o with cell := e.cell }
+          have hc := sameCap_trySave (s.setObj oi { o with cell := e.cell }) { o with cell := e.cell }
+          cases hts : trySave (s.setObj oi { o with cell := e.cell }) { o with cell := e.cell } with
+          | mk s1 werr =>
+            rw [hts] at ht hc
+            have h1 : s1.size = s.size := ht.2.1
+            have h2 : s1.capacity = s.capacity := hc.1
+            cases hm : e.modified <;> cases force <;> cases werr <;>
+              simp only [hm, hts, Bool.false_eq_true, if_false, if_true, Bool.not_false, Bool.not_true] <;>
+              (try split) <;> simp [State.delEntry, State.setEntry, h1, h2]
       · exact ⟨Nat.le_refl _, rfl⟩
     · exact ⟨Nat.le_refl _, rfl⟩
 
@@ -274,7 +295,7 @@ theorem save_eq (s : State) (oi : Nat) :
           | .serialized => overflow (saveSer (s.register oi) o)
           | .sharedMemory => overflow (saveMem (s.register oi) o)
           | .none => (s.register oi, none)
-        else (saveToResource s o, none) := by
+        else trySave s o := by
   unfold save overflow saveSer saveMem
   rfl
 
@@ -330,7 +351,7 @@ theorem held_save (s : State) (oi : Nat) (hst : s.strategy ≠ .none) (h : Held 
         have hX := held_saveBuf s oi o ho hb h _ (grow_saveMem (s.register oi) o)
         exact held_overflow _ (by rw [(grow_saveMem _ _).strat, strat_register]; exact hst) hX
       · exact held_saveBuf s oi o ho hb h _ (Grow.refl _ _)
-    · exact Held.of_frame (Frame.of_eq rfl rfl rfl rfl rfl) h
+    · exact Held.of_frame (frame_trySave s o).1 h
 
 /-- C15: after `_save` the size is within the capacity -/
 theorem bounded_save (s : State) (oi : Nat) (hst : s.strategy ≠ .none) (h : Held s) (hs : SizeOK s)
@@ -353,7 +374,7 @@ theorem bounded_save (s : State) (oi : Nat) (hst : s.strategy ≠ .none) (h : He
         exact bounded_overflow _ (by rw [(grow_saveMem _ _).strat, strat_register]; exact hst) hX hso
       · rename_i hs'
         exact absurd ((strat_register s oi).symm.trans hs') hst
-    · exact hbd
+    · rw [(sameBook_trySave s o).2.1, (sameCap_trySave s o).1]; exact hbd
 
 
 /-! ### `_load_from_buffer` -/
@@ -899,6 +920,7 @@ theorem good_step (s : State) (st : Step) (h : Good s) : Good (step s st) := by
   | openObj d r data => exact good_openObj s d r data h
   | ext r d => exact Good.quiet (Frame.of_eq rfl rfl rfl rfl rfl) (sameBook_writeFile s r d) rfl h
   | extDel r => exact Good.quiet (s' := s.deleteFile r) (Frame.of_eq rfl rfl rfl rfl rfl) ⟨rfl, rfl, rfl, rfl⟩ rfl h
+  | setFailing rs => exact Good.quiet (s' := { s with failing := rs }) (Frame.of_eq rfl rfl rfl rfl rfl) ⟨rfl, rfl, rfl, rfl⟩ rfl h
 
 theorem good_run (s : State) (steps : List Step) (h : Good s) : Good (run s steps) := by
   induction steps generalizing s with
